@@ -308,6 +308,39 @@ fn translate_stage0(expr: ExprNodeId) -> ExprNodeId {
     }
 }
 
+/// Translate the operand of an `Escape`.
+///
+/// The type checker gives a macro-stage section that ends without a value
+/// (e.g. a file whose last section is `#stage(macro)` followed only by
+/// definitions) the type unit.  At stage 0 the escape must still evaluate to
+/// a code value, because the enclosing combinator call (`code_letrec_typed`,
+/// `code_let`, ...) reads one from the stack.  The open end of such a
+/// definition chain is therefore completed with the code of `()`.
+fn translate_escape_operand(expr: ExprNodeId) -> ExprNodeId {
+    let close = |then: Option<ExprNodeId>| {
+        Some(then.map_or_else(code_unit_expr, translate_escape_operand))
+    };
+    match expr.to_expr() {
+        Expr::Let(tp, val, then) => {
+            let new_tp = strip_code_typed_pattern(tp);
+            let new_val = translate_stage0(val);
+            Expr::Let(new_tp, new_val, close(then)).into_id_without_span()
+        }
+        Expr::LetRec(id, val, then) => {
+            let new_id = strip_code_typed_id(id);
+            let new_val = translate_stage0(val);
+            Expr::LetRec(new_id, new_val, close(then)).into_id_without_span()
+        }
+        Expr::Then(e1, e2) => {
+            Expr::Then(translate_stage0(e1), close(e2)).into_id_without_span()
+        }
+        Expr::Assign(..) => {
+            Expr::Then(translate_stage0(expr), Some(code_unit_expr())).into_id_without_span()
+        }
+        _ => translate_stage0(expr),
+    }
+}
+
 // ---------------------------------------------------------------------------
 // Code-construction translator (stage 1+)
 // ---------------------------------------------------------------------------
@@ -320,7 +353,7 @@ fn translate_code(expr: ExprNodeId) -> ExprNodeId {
         //
         // The inner expression is stage-0 code that, when executed, produces
         // an `ExprNodeId` (code value).  We translate it at stage 0.
-        Expr::Escape(inner) => translate_stage0(inner),
+        Expr::Escape(inner) => translate_escape_operand(inner),
 
         // -- Nested bracket: increment stage further -------------------------
         //
